@@ -125,7 +125,30 @@ class Conv:
             qn = getattr(v, '__qualname__', '')
             if id(v) in self.lamobjs or qn == 'LambdaOp.eval.<locals>.f':
                 return {'t': 'lambda', 'lid': self.lambda_id(v)}
-        return {'t': 'opaque', 'type': type(v).__module__ + '.' + type(v).__qualname__}
+        return self.opaque(v)
+
+    def opaque(self, v, why=None):
+        """An object the specification does not model: its type and a digest of its printed state (the frame rule of the
+        specification - a non-mutator leaves its arguments as they were - is checked on the digest)."""
+        try:
+            text = repr(v)
+        except Exception as e:      # noqa
+            text = 'repr raised ' + type(e).__name__
+        import hashlib
+        return {'t': 'opaque', 'type': why or (type(v).__module__ + '.' + type(v).__qualname__),
+                'digest': hashlib.sha1(text.encode('utf-8', 'replace')).hexdigest()[:16]}
+
+    def is_opaque(self, v):
+        """Does the projection of v (as an argument) have type opaque?  Cheap for the common types."""
+        t = type(v)
+        if t in (list, tuple, str, type(None), bool):
+            return False
+        if t is dict:
+            return any(not _key_ok(k) for k in v)
+        s = self.scalar(v)
+        if s is not None:
+            return s['t'] == 'opaque'
+        return True
 
     # -- deep (observed) form -----------------------------------------------------
     RLE_MIN = 48
@@ -160,7 +183,7 @@ class Conv:
             return {'t': 'list', 'addr': a, 'items': [self.deep(x, seen, depth + 1) for x in v]}
         if type(v) is dict:
             if any(not _key_ok(k) for k in v):
-                return {'t': 'opaque', 'type': 'dict-with-non-str-keys'}
+                return self.opaque(v, 'dict-with-non-str-keys')
             a = self.address(v)
             if a in seen:
                 return {'t': 'dict', 'addr': a, 'seen': True}
@@ -172,7 +195,7 @@ class Conv:
                         'head': [[_key(k), self.deep(x, seen, depth + 1)] for k, x in items[:3]],
                         'tail': [[_key(k), self.deep(x, seen, depth + 1)] for k, x in items[-3:]]}
             return {'t': 'dict', 'addr': a, 'items': [[_key(k), self.deep(x, seen, depth + 1)] for k, x in v.items()]}
-        return {'t': 'opaque', 'type': type(v).__module__ + '.' + type(v).__qualname__}
+        return self.opaque(v)
 
     # -- initial heap: host-supplied objects --------------------------------------
     def initial(self, names_list):
@@ -208,7 +231,7 @@ class Conv:
                 return {'t': 'list', 'addr': a}
             if type(v) is dict:
                 if any(not _key_ok(k) for k in v):
-                    return {'t': 'opaque', 'type': 'dict-with-non-str-keys'}
+                    return self.opaque(v, 'dict-with-non-str-keys')
                 if id(v) in self.addr:
                     return {'t': 'dict', 'addr': self.addr[id(v)]}
                 a = self.address(v)
@@ -220,7 +243,7 @@ class Conv:
                     return {'t': 'dict', 'addr': a}
                 heap[a - 1] = {'t': 'dict', 'items': [[_key(k), ref(x)] for k, x in v.items()]}
                 return {'t': 'dict', 'addr': a}
-            return {'t': 'opaque', 'type': type(v).__qualname__}
+            return self.opaque(v)
 
         names0 = []
         for nm in names_list:
@@ -243,6 +266,32 @@ class Conv:
 KINDS = [('NoOp', 'noop'), ('ValueOp', 'val'), ('CodeOp', 'code'), ('BinOp', 'bin'), ('UnaryOp', 'un'),
          ('AssignOp', 'assign'), ('ShortOp', 'short'), ('NameOp', 'name'), ('IfExprOp', 'if'),
          ('SliceOp', 'slice'), ('CallOp', 'call'), ('DictOp', 'dict'), ('LambdaOp', 'lambda')]
+
+FRAME_BUILTINS = ('len', 'int', 'float', 'str', 'dict', 'list', 'startswith', 'endswith', 'lower', 'upper', 'strip', 'replace', 'pretty',
+                  'keys', 'values', 'items', 'sum', 'get', 'join', 'split', 'round', 'floor', 'ceil', 'abs', 'min', 'max',
+                  'reversed', 'enumerate', 'index_of')
+
+
+def _inner_containers(v, out, d):
+    """ids of the mutable containers reachable inside an unmodelled object."""
+    if d > 6 or id(v) in out and d > 0:
+        return
+    import collections.abc as abc
+    if d > 0 and isinstance(v, (list, dict, set, bytearray)):
+        out.add(id(v))
+    try:
+        if isinstance(v, abc.Mapping):
+            for x in list(v.values())[:2000]:
+                _inner_containers(x, out, d + 1)
+        elif isinstance(v, (list, tuple, set, frozenset)):
+            for x in list(v)[:2000]:
+                _inner_containers(x, out, d + 1)
+        elif hasattr(v, '__dict__'):
+            for x in list(vars(v).values())[:200]:
+                _inner_containers(x, out, d + 1)
+    except Exception:
+        pass
+
 
 def _key_ok(k):
     return type(k) is str or (type(k) is int and abs(k) < 10 ** 15)
@@ -334,6 +383,9 @@ class Tracer:
         for name in ORACLE_BUILTINS:
             if name in F:
                 F[name] = self.make_oracle_wrapper(name, F[name])
+        for name in FRAME_BUILTINS:
+            if name in F and name not in ORACLE_BUILTINS:
+                F[name] = self.make_frame_wrapper(name, F[name])
         self.functions_digest0 = self.functions_digest()
         self.installed = True
         return self.impl
@@ -341,6 +393,51 @@ class Tracer:
     def functions_digest(self):
         F = self.impl['functions'].FUNCTIONS
         return sorted((k, id(v)) for k, v in F.items())
+
+    def make_frame_wrapper(self, name, f):
+        """A non-mutating builtin applied to an object the specification does not model: the specification says nothing
+        about the result (it adopts the observed one) but it does say that nothing else changes."""
+        T = self
+
+        def w(*args):
+            if not T.active or T.conv is None or not any(T.conv.is_opaque(a) for a in args):
+                return f(*args)
+            inner = set()
+            for a in args:
+                if T.conv.is_opaque(a):
+                    _inner_containers(a, inner, 0)
+            try:
+                r = f(*args)
+            except BaseException as e:
+                T.emit({'e': 'o', 'name': name, 'orc': {'t': 'raise', 'e': T.conv.exc(e)}})
+                raise
+            T.emit({'e': 'o', 'name': name, 'orc': T.frame_value(r, inner)})
+            return r
+        w.__name__ = 'frame_' + name
+        w.__wrapped__ = f
+        return w
+
+    def frame_value(self, r, inner):
+        c = self.conv
+        bad = []
+
+        def conv(v, d=0):
+            s = c.scalar(v)
+            if s is not None:
+                return s
+            if d > 6 or id(v) in inner:
+                bad.append(1)           # part of the unmodelled object itself: the specification cannot follow it
+                return {'t': 'none'}
+            if type(v) is tuple:
+                return {'t': 'tuple', 'items': [conv(x, d + 1) for x in v]}
+            if type(v) in (list, dict) and id(v) in c.addr:
+                return {'t': 'list' if type(v) is list else 'dict', 'addr': c.addr[id(v)], 'obs': True}
+            if type(v) is list:
+                return {'t': 'ilist', 'items': [conv(x, d + 1) for x in v]}
+            bad.append(1)
+            return {'t': 'none'}
+        v = conv(r)
+        return {'t': 'unknown'} if bad else {'t': 'val', 'v': v}
 
     def make_oracle_wrapper(self, name, f):
         T = self
